@@ -113,12 +113,14 @@ func decorate(r *rand.Rand, t *tagger, indent, body string, require bool) string
 	b.WriteString(indent + body)
 	k := r.Intn(20)
 	switch {
-	case require && k < 5:
+	case require && k < 4:
 		b.WriteString(" // indirect")
 	case require && k < 7:
-		b.WriteString(" // indirect; " + t.next())
+		b.WriteString(pick(r, " // indirect; ", " // indirect;  ", " //indirect; ", " //  indirect; ") + suffixText(r, t))
 	case require && k < 8:
 		b.WriteString(" //indirect")
+	case require && k < 10:
+		b.WriteString(" // " + suffixText(r, t)) // a direct line whose comment a promotion to indirect must keep whole
 	case k < 11:
 		b.WriteString(" // " + t.next())
 	case k < 12:
@@ -126,6 +128,36 @@ func decorate(r *rand.Rand, t *tagger, indent, body string, require bool) string
 	}
 	b.WriteString("\n")
 	return b.String()
+}
+
+// suffixText is the text of an end-of-line comment on a require line, to be kept verbatim
+// when a bulk setter adds or removes the "indirect;" marker in front of it: 0, 1 or 2 further
+// semicolons with and without blanks around them, and texts that begin with the word
+// "indirect" without being a marker.  It never begins with a field "indirect" or
+// "indirect;" (the shape of known finding K9 is produced by the fixed corpus probe only).
+func suffixText(r *rand.Rand, t *tagger) string {
+	a, b2, c := t.next(), t.next(), t.next()
+	switch r.Intn(10) {
+	case 0:
+		return a + "; " + b2
+	case 1:
+		return a + ";" + b2
+	case 2:
+		return a + " ; " + b2 + "; " + c
+	case 3:
+		return a + ";" + b2 + ";" + c
+	case 4:
+		return a + " ;" + b2 + " ;"
+	case 5:
+		return "indirectly " + a + "; " + b2
+	case 6:
+		return "indirect;" + a // one field "indirect;cN": not a marker
+	case 7:
+		return "indirect-" + a + ";; " + b2
+	case 8:
+		return a + " // " + b2 + "; " + c
+	}
+	return a
 }
 
 // stmtText renders a statement of the given verb with the given line bodies, either as
